@@ -596,13 +596,24 @@ class FrameOps:
             src = se.obj
             sm = se.model
             keys = list(sm.columns.raw)
-            s_index = sm.index.labels()
-            t_index = m.index.labels()
-            if len(set(s_index)) != len(s_index):
+            s_index = list(sm.index.raw)
+            t_index = list(m.index.raw)
+            if len(set(sm.index.labels())) != len(s_index):
                 return 'skip'
+
+            def find(lab):
+                # label equality is Python equality (True == 1 == 1.0), as in the library's hash-based lookup
+                for i, x in enumerate(s_index):
+                    try:
+                        if x == lab and not isinstance(x == lab, np.ndarray):
+                            return i
+                    except Exception:
+                        pass
+                return None
+            pos = [find(lab) for lab in t_index]
             cells = []
             for c in sm.data:
-                cells.append([c[s_index.index(lab)] if lab in s_index else fv for lab in t_index])
+                cells.append([c[i] if i is not None else fv for i in pos])
             if sm.columns.hier != m.columns.hier:
                 return 'skip'
             self.probe('extend-from-pool-member')
